@@ -6,4 +6,4 @@ Extraction "../extract/gen/mix_model.ml" sds_views img_views ann_views file_orde
   sd_read_sdd dfsd_read_sdd sdd_encode nt_decode dfsd_nt_decode nt_encode
   id_decode id_encode di_decode di_encode ndg_view dfsd_view dfr8_view dfgr_view get old_sds_file old_img_file
   hdf_write_var_SDD DFSDIputndg_SDD DFGRgetrig_ID DFGRaddrig_ID DFR8putrig_ID GRIupdatemeta_ID
-  DFTAG_NDG DFTAG_SDG DFTAG_SDD DFTAG_NT DFTAG_SD DFTAG_RIG DFTAG_ID DFTAG_RI DFTAG_CI shown_nt gr_compat sdlnk_sdg sd_read_scales dfsd_read_scales ntsize DFTAG_SDS ndg_dims.
+  DFTAG_NDG DFTAG_SDG DFTAG_SDD DFTAG_NT DFTAG_SD DFTAG_RIG DFTAG_ID DFTAG_RI DFTAG_CI shown_nt gr_compat sdlnk_sdg sd_read_scales dfsd_read_scales ntsize DFTAG_SDS ndg_dims convert.
